@@ -16,5 +16,6 @@ func NewMessageHeader(typeOf RequestType) *Header {
 
 // ToString returns customized string
 func (its *Header) ToString() string {
-	return fmt.Sprintf("%s|%s|%s", its.Version, its.Type, its.Agent)
+	// through the getters: a message may carry no header at all
+	return fmt.Sprintf("%s|%s|%s", its.GetVersion(), its.GetType(), its.GetAgent())
 }
